@@ -1553,6 +1553,11 @@ func (b *ASTBuilder) buildParameters(tsNode *sitter.Node) []*Node {
 						arg.Children = append(arg.Children, typeASTNode)
 					}
 				}
+				// The default value of a typed parameter (b: int = make()). Value already
+				// holds the annotation text, so the expression is kept in Right
+				if valueNode := b.getChildByFieldName(child, "value"); valueNode != nil {
+					arg.Right = b.buildNode(valueNode)
+				}
 				params = append(params, arg)
 			case "list_splat_pattern":
 				arg := NewNode(NodeArg)
